@@ -587,6 +587,31 @@ func casesUciPosition(c *caseCtx) {
 	emit([]string{"position fen 4k3/8/8/8/8/8/8/R3K3 w - - 98 70 moves a1a2 e8d8 a2a3", "position fen 4k3/8/8/8/8/8/8/R3K3 w - - 98 70 moves a1a2 e8d8", "position fen 4k3/8/8/8/8/8/8/R3K3 w - - 98 70 moves a1a2 e8d8 a2a4", "position fen 4k3/8/8/8/8/8/8/R3K3 w - - 98 70 moves a1a2"})
 	emit([]string{"position fen 4k3/8/8/8/3n4/8/3R4/4K3 b - - 0 1 moves e8e7 d2d4 e7e6", "position fen 4k3/8/8/8/3n4/8/3R4/4K3 b - - 0 1 moves e8e7 d2d4", "position fen 4k3/8/8/8/3n4/8/3R4/4K3 b - - 0 1 moves e8e7 d2d4 e7f6", "position fen 4k3/8/8/8/3n4/8/3R4/4K3 b - - 0 1 moves e8e7"})
 	emit([]string{"position fen 4k3/8/8/8/3b4/8/3R4/4K3 b - - 0 1 moves d4f2 e1f2 e8e7 f2e2", "position fen 4k3/8/8/8/3b4/8/3R4/4K3 b - - 0 1 moves d4f2 e1f2 e8e7", "position fen 4k3/8/8/8/3b4/8/3R4/4K3 b - - 0 1 moves d4f2 e1f2"})
+	// commands other than position / ucinewgame between two position lines leave the game alone: the next line
+	// still continues it (options changed while idle, searches run and stopped, isready, debug, junk)
+	knights := []string{"g1f3", "g8f6", "f3g1", "f6g8", "g1f3", "g8f6", "f3g1", "f6g8", "b1c3"}
+	for _, noise := range [][]string{
+		{"setoption name Hash value 1"}, {"setoption name Hash value 1", "setoption name Hash value 0"}, {"setoption name Hash value 16"},
+		{"go depth 1"}, {"go depth 2", "stop"}, {"go infinite", "stop"}, {"debug on"}, {"uci"},
+		{"setoption name Noise value 3"}, {"setoption name OwnBook value false"}, {"setoption name Depth value 2"}, {"stop"}, {"ponderhit"}, {"xyzzy"},
+	} {
+		for _, at := range []int{2, 5} {
+			var ls []string
+			for n := 0; n <= len(knights); n++ {
+				l := "position startpos"
+				if n > 0 {
+					l += " moves " + strings.Join(knights[:n], " ")
+				}
+				ls = append(ls, l)
+				if n == at || (n == 7 && at == 5) {
+					ls = append(ls, noise...)
+				}
+			}
+			emit(ls)
+		}
+		emit(append(append([]string{"position fen 4k3/8/8/8/8/8/8/R3K3 w Q - 98 70 moves a1a2"}, noise...), "position fen 4k3/8/8/8/8/8/8/R3K3 w Q - 98 70 moves a1a2", "position fen 4k3/8/8/8/8/8/8/R3K3 w Q - 98 70 moves a1a2 e8d8"))
+	}
+	noiseCmds := []string{"setoption name Hash value 1", "setoption name Hash value 0", "setoption name Hash value 4", "go depth 1", "stop", "debug off", "setoption name Noise value 0", "setoption name Depth value 1"}
 	for g := 0; g < c.scale(60, 1500); g++ {
 		// one game, sent as a GUI would: growing move lists, occasional repeats, shortenings, new games
 		start := "startpos"
@@ -618,6 +643,8 @@ func casesUciPosition(c *caseCtx) {
 				lines = append(lines, "ucinewgame")
 			case r == 1 && len(moves) > 0:
 				lines = append(lines, line(len(moves))) // verbatim
+			case r == 5 || r == 6:
+				lines = append(lines, noiseCmds[c.r.Intn(len(noiseCmds))])
 			case (r == 3 || r == 4) && len(moves) > 0:
 				// the GUI switches to describing the game by the FEN of the current position: a new game
 				// starting there (no history), with the current clocks or with fresh ones
